@@ -8,7 +8,8 @@ def plan(tier):
                                  "custom_xclip_prefix_used", "custom_xclip_suffix_used",
                                  "custom_yclip_prefix_used", "custom_yclip_suffix_used", "custom_fully_clipped",
                                  "large_then_small_same_aligner", "big_equal_inputs", "big_equal_inputs_offdiagonal_table_global", "big_x_contained_in_y",
-                                 "big_y_contained_in_x", "small_calls_after_big_call_same_aligner"],
+                                 "big_y_contained_in_x", "small_calls_after_big_call_same_aligner", "clone_mid_history",
+                                 "clone_from_other_aligner", "serde_round_trip"],
         "rule": "one run = one Aligner object reused for many calls; exhaustive: all x,y over {A,C} incl. empty up "
                 "to length 2 (quick) / 3 (thorough) x gap/substitution/clip scheme grid x 4 modes; random: schemes "
                 "with arbitrary (asymmetric) substitution tables or MatchParams, clip penalties from "
